@@ -89,8 +89,10 @@ def random_program(rng, t, n, queries=True):
         reg = rng.below(len(ops) + 1) if rng.chance(3, 4) else max(0, len(ops) - rng.below(3))
         if r < 60:
             ops.append("%s:%d" % (rng.choice(single), reg))
-        elif r < 72:
+        elif r < 68:
             ops.append("%s:%d:%d" % (rng.choice(["ch", "cht"]), reg, rng.below(5)))
+        elif r < 72:
+            ops.append("%s:%d:%s" % (rng.choice(["itn", "its"]), reg, ".".join(str(rng.below(3)) for _ in range(1 + rng.below(4)))))
         elif r < 80:
             ops.append("%s:%d:%d" % (rng.choice(["nca", "ncta", "pcb", "pctb"]), reg, rng.below(len(ops) + 1)))
         elif r < 88 and queries:
